@@ -95,3 +95,81 @@ Proof.
 Qed.
 
 End EmitterProofs.
+
+(* ------------------------------------------------ sequential composition *)
+
+Section SeqProofs.
+
+Variables R1 R2 : Type.
+Variable adv1 : R1 -> option (bytes * R1).
+Variable adv2 : R2 -> option (bytes * R2).
+Variable link : R1 -> R2.
+
+Notation advS := (adv_seq R1 R2 adv1 adv2 link).
+
+Lemma whole_in2 f : forall r, whole _ advS f (In2 R1 R2 r) = whole R2 adv2 f r.
+Proof.
+  induction f as [|f IH]; intros r; [reflexivity|]. cbn [whole adv_seq].
+  destruct (adv2 r) as [[b r2]|]; [|reflexivity]. rewrite IH. reflexivity.
+Qed.
+
+Lemma stages_in2 f : forall r, stages _ advS f (In2 R1 R2 r) = stages R2 adv2 f r.
+Proof.
+  induction f as [|f IH]; intros r; [reflexivity|]. cbn [stages adv_seq].
+  destruct (adv2 r) as [[b r2]|]; [|reflexivity]. rewrite IH. reflexivity.
+Qed.
+
+(* with enough fuel for both: first everything of the first producer, then everything of the second,
+   started from where the first one ended *)
+Theorem whole_seq f1 : forall r k1 f2 k2,
+  stages R1 adv1 f1 r = Some k1 ->
+  stages R2 adv2 f2 (link (final1 R1 adv1 f1 r)) = Some k2 ->
+  whole _ advS (f1 + f2) (In1 R1 R2 r) =
+    whole R1 adv1 f1 r ++ whole R2 adv2 f2 (link (final1 R1 adv1 f1 r)) /\
+  stages _ advS (f1 + f2) (In1 R1 R2 r) = Some (k1 + k2)%nat.
+Proof.
+  induction f1 as [|f1 IH]; intros r k1 f2 k2 H1 H2; [discriminate|].
+  cbn [stages] in H1. cbn [final1] in H2 |- *.
+  destruct (adv1 r) as [[b r']|] eqn:Ea.
+  - destruct (stages R1 adv1 f1 r') as [k1'|] eqn:E1; [|discriminate]. injection H1 as <-.
+    destruct (IH r' k1' f2 k2 E1 H2) as (Hw & Hs).
+    assert (Hw1 : whole _ advS (S f1 + f2) (In1 R1 R2 r) = b ++ whole _ advS (f1 + f2) (In1 R1 R2 r'))
+      by (cbn [plus whole adv_seq]; rewrite Ea; reflexivity).
+    assert (Hs1 : stages _ advS (S f1 + f2) (In1 R1 R2 r) =
+                  match stages _ advS (f1 + f2) (In1 R1 R2 r') with Some k => Some (S k) | None => None end)
+      by (cbn [plus stages adv_seq]; rewrite Ea; reflexivity).
+    rewrite Hw1, Hs1, Hw, Hs. cbn [whole]. rewrite Ea, <- app_assoc. split; reflexivity.
+  - injection H1 as <-.
+    assert (Hw0 : whole R1 adv1 (S f1) r = []) by (cbn [whole]; rewrite Ea; reflexivity).
+    rewrite Hw0. cbn [app plus].
+    destruct f2 as [|f2]; [discriminate|]. cbn [stages] in H2.
+    destruct (adv2 (link r)) as [[b r2]|] eqn:E2.
+    + destruct (stages R2 adv2 f2 r2) as [k2'|] eqn:Es2; [|discriminate]. injection H2 as <-.
+      assert (Hm : stages R2 adv2 (f1 + S f2) r2 = Some k2') by (apply (stages_more R2 adv2 f2); [exact Es2|lia]).
+      assert (Hw1 : whole _ advS (S (f1 + S f2)) (In1 R1 R2 r) = b ++ whole _ advS (f1 + S f2) (In2 R1 R2 r2))
+        by (cbn [whole adv_seq]; rewrite Ea, E2; reflexivity).
+      assert (Hs1 : stages _ advS (S (f1 + S f2)) (In1 R1 R2 r) =
+                    match stages _ advS (f1 + S f2) (In2 R1 R2 r2) with Some k => Some (S k) | None => None end)
+        by (cbn [stages adv_seq]; rewrite Ea, E2; reflexivity).
+      rewrite Hw1, Hs1, whole_in2, stages_in2, Hm.
+      rewrite (whole_fuel R2 adv2 (f1 + S f2) f2 r2 k2' Hm Es2).
+      cbn [whole]. rewrite E2. split; reflexivity.
+    + injection H2 as <-.
+      assert (Hw1 : whole _ advS (S (f1 + S f2)) (In1 R1 R2 r) = []) by (cbn [whole adv_seq]; rewrite Ea, E2; reflexivity).
+      assert (Hs1 : stages _ advS (S (f1 + S f2)) (In1 R1 R2 r) = Some 0%nat) by (cbn [stages adv_seq]; rewrite Ea, E2; reflexivity).
+      rewrite Hw1, Hs1. cbn [whole]. rewrite E2. split; reflexivity.
+Qed.
+
+End SeqProofs.
+
+Lemma whole_list_gen l : forall f, (length l < f)%nat ->
+  whole (list bytes) adv_list f l = concat l /\ stages (list bytes) adv_list f l = Some (length l).
+Proof.
+  induction l as [|x l IH]; intros f Hf; (destruct f as [|f]; [cbn in Hf; lia|]).
+  - split; reflexivity.
+  - cbn [length] in Hf. destruct (IH f ltac:(lia)) as (IHw & IHs).
+    cbn [whole stages adv_list concat length]. rewrite IHw, IHs. split; reflexivity.
+Qed.
+
+Lemma whole_list l : whole (list bytes) adv_list (S (length l)) l = concat l /\ stages (list bytes) adv_list (S (length l)) l = Some (length l).
+Proof. apply whole_list_gen. lia. Qed.
